@@ -185,6 +185,11 @@ func (p *Parser) lookupType(typeName string, pos token.Pos) (*types.Scope, types
 		return nil, nil
 	}
 
+	if !ast.IsExported(names[1]) {
+		// An unexported member of another package cannot be referred to.
+		return nil, nil
+	}
+
 	scope := pkg.Types.Scope()
 	obj := scope.Lookup(names[1])
 	return scope, obj
